@@ -98,14 +98,28 @@ fn random(a: &Args) {
         }
         let world = setup_world(&mut r, false);
         let all_gids: Vec<usize> = r.rec.sys.iter().filter(|s| s.addr != 0).map(|s| s.gid).collect();
-        for i in 0..dispatches {
+        // systems that are followed by at least two others in their group (top-level plan): what a panic
+        // leaves behind in such a group is what the next dispatch runs
+        let fronts: Vec<usize> = {
+            let (st, _) = r.rec.layout_gids(&r.dispatcher.as_ref().unwrap().verif_layout());
+            st.iter().flatten().filter(|g| g.len() >= 3).flat_map(|g| g[..g.len() - 2].to_vec()).filter(|g| *g != 0).collect()
+        };
+        let mut i = 0;
+        let mut last_panicked = false;
+        // a dispatch that panicked is never the last one: the state it leaves behind is observed by the next
+        while i < dispatches || (last_panicked && i < dispatches + 2) {
             let mode = modes[(k + i) % modes.len()];
+            i += 1;
             let mut panics = Vec::new();
-            if npanic > 0.0 && rng.gen_bool(npanic) && !all_gids.is_empty() {
+            last_panicked = false;
+            if npanic > 0.0 && i <= dispatches && rng.gen_bool(npanic) && !all_gids.is_empty() {
+                last_panicked = true;
                 // thread-local systems (top level) are few: pick them on purpose now and then
                 let tls: Vec<usize> = r.rec.sys.iter().filter(|s| s.kind == "tl" && s.builder == r.top).map(|s| s.gid).collect();
                 if !tls.is_empty() && rng.gen_bool(0.3) {
                     panics.push(*tls.choose(&mut rng).unwrap());
+                } else if !fronts.is_empty() && rng.gen_bool(0.35) {
+                    panics.push(*fronts.choose(&mut rng).unwrap());
                 } else {
                     panics.push(*all_gids.choose(&mut rng).unwrap());
                 }
@@ -366,7 +380,7 @@ fn rendezvous_cmd(a: &Args) {
     let mut rng = StdRng::seed_from_u64(seed);
     let mut w = BufWriter::new(File::create(out).unwrap());
     let cores = std::thread::available_parallelism().map(|n| n.get()).unwrap_or(1);
-    let contexts = ["user", "user_par", "default", "batch", "batch_then_pool", "batch_nested", "default_outer_batch", "async", "foreign"];
+    let contexts = ["user", "user_par", "default", "batch", "batch_then_pool", "batch_nested", "batch_siblings", "default_outer_batch", "async", "foreign"];
     let hint_sets: Vec<Vec<u8>> = vec![vec![3], vec![1], vec![5], vec![1, 5], vec![2, 3, 4], vec![1, 1, 2]];
     let (mut runs, mut stalls, mut skipped) = (0usize, 0usize, 0usize);
     let mut samples = Vec::new();
@@ -428,6 +442,24 @@ fn rendezvous_cmd(a: &Args) {
                                 .with_batch(RvCtl, mid, "outer", &[])
                                 .with_pool(pool_of(psize + 1))
                                 .build();
+                            d.dispatch(&world);
+                        }
+                        "batch_siblings" => {
+                            // the batch with the rendezvous stage is the FIRST group of an outer stage with idle
+                            // siblings: the worker that runs it has just queued the siblings for others to steal.
+                            // A pause lets the pool fall asleep first (stealing then takes its time).
+                            let nsib = 3 + extra;
+                            let mut b = DispatcherBuilder::new().with_pool(pool_of(psize + nsib)).with_batch(
+                                RvCtl,
+                                rv_builder(&rv, &hints),
+                                "batch",
+                                &[],
+                            );
+                            for i in 0..nsib {
+                                b.add(shredh::rvx::Noop, &format!("sib{}", i), &[]);
+                            }
+                            let mut d = b.build();
+                            std::thread::sleep(Duration::from_millis(12));
                             d.dispatch(&world);
                         }
                         "default_outer_batch" => {
